@@ -24,6 +24,8 @@ def choose_versions(run, exe, U, acc, rnd, nclass, nsingle):
               [v + q for v in ("1.0", "1.0.0", "2.0.0", "1.1") for q in ("-rc1", ".rc1", "rc1", "-alpha", "-alpha.1", "a1", "_rc1", "~rc1", "-SNAPSHOT", ".dev1", "-beta")] +
               # zero parts spelled with several digits, and pre-release identifiers around the limits of machine integers next
               # to digit-led alphanumerics: where an order stops being transitive first (the lists C07 sorts come from here)
+              # around exact-match operators: letter case of a pre-release label, a release / revision present or absent
+              ["1.0.0-RC.1", "1.0.0-rc.1", "1.0.0-Zeta", "1.0.0-beta.1", "1.0.0-beta.01", "1.2.3", "1.2.3-2", "1.2.3-5", "1.2.3-9", "1.0-2", "1.0-5", "1.0-r2", "1.0-r5"] +
               ["1.00", "1.0.00", "1.000", "01.0", "2.5.000", "1.05", "1.010", "1.01", "2.05.1", "1.1_alpha", "1.1_rc1", "1.1-r1", "1.1_p1", "1.2"] +
               [st + "-" + i for st in ("1.0.0", "v1.0.0") for i in ("5", "10", "9223372036854775808", "40000000000000000000", "100000000000000000000", "5a", "1a", "9a", "12", "100", "0a")]
               for e in ECOS}
@@ -112,6 +114,8 @@ def check(run):
                 for b in ("1.1", "1.0", "2.0", "1.1.0", "v1.1.0", "1.0.0"):
                     for t in (">=" + b, "<" + b, ">" + b, "<=" + b, ">= " + b):
                         must.setdefault(e, []).append({"text": t, "convex": True})
+                for t in ("=1.0.0-RC.1", "[1.0.0-RC.1]", "==1.0.0-RC.1", "1.0.0-RC.1", "=1.2.3-5", "=1.0-5", "= 1.2.3-5", "[1.2.3-5]", "=1.0-r5"):
+                    must.setdefault(e, []).append({"text": t, "convex": True})      # one point: convex
                 for t in (">=1.1 <3.0", ">=1.1,<3.0", ">=1.1, <3.0", ">=1.1.0 <3.0.0", ">1.0 <=2.0", ">=1.1 and <3.0"):
                     must.setdefault(e, []).append({"text": t, "convex": True})
             ptexts = {}
@@ -146,7 +150,7 @@ def check(run):
             if smp is None and e["ranges"]:
                 smp = {"eco": e["eco"], "versions": e["texts"][:6], "range": e["ranges"][0]["text"], "contains": e["ranges"][0]["contains"][:6]}
         return mm, n, eqp, smp
-    with cf.ThreadPoolExecutor(max_workers=8) as ex:
+    with cf.ThreadPoolExecutor(max_workers=4) as ex:   # four judges at a time: the matrices of this check are the largest
         results = list(ex.map(one, list(enumerate(shards))))
     judged = 0; eqpairs = 0
     for mm, n, eqp, smp in results:
